@@ -391,9 +391,30 @@ fn emit_stack_cleanup_code<E: quiver_core::effects::Effect>(
     }
 }
 
+/// The name of the tuple built for one variant: the given name, or — for `~[..., y]` /
+/// `a[..., y]`, which inherit it — the name of the tuple this variant's first spread source is.
+/// (A union-typed source has no single name; each of its variants keeps its own.)
+fn variant_tuple_name(
+    program: &Program,
+    variant: &VariantInfo,
+    tuple_name: &Option<String>,
+    inherit_name: bool,
+) -> Option<String> {
+    if !inherit_name {
+        return tuple_name.clone();
+    }
+    variant
+        .spread_type_ids
+        .first()
+        .and_then(|tuple_id| program.lookup_tuple(*tuple_id))
+        .and_then(|info| info.name.clone())
+}
+
 pub fn compile_tuple_with_spread<E: quiver_core::effects::Effect>(
     compiler: &mut Compiler<'_, E>,
     tuple_name: Option<String>,
+    // The tuple inherits its name from its first spread's source.
+    inherit_name: bool,
     fields: Vec<ast::TupleField>,
     ripple_context: Option<&RippleContext>,
 ) -> Result<(usize, Provenance), Error> {
@@ -417,13 +438,8 @@ pub fn compile_tuple_with_spread<E: quiver_core::effects::Effect>(
 
     // Step 3: Generate bytecode based on number of variants
     let result_type_id = if variants.len() == 1 {
-        emit_single_variant_tuple(
-            compiler,
-            &variants[0],
-            &compiled_values,
-            stack_size,
-            tuple_name.clone(),
-        )?
+        let name = variant_tuple_name(compiler.program, &variants[0], &tuple_name, inherit_name);
+        emit_single_variant_tuple(compiler, &variants[0], &compiled_values, stack_size, name)?
     } else {
         emit_multi_variant_tuples(
             compiler,
@@ -431,6 +447,7 @@ pub fn compile_tuple_with_spread<E: quiver_core::effects::Effect>(
             &compiled_values,
             stack_size,
             tuple_name.clone(),
+            inherit_name,
         )?
     };
 
@@ -479,6 +496,7 @@ fn emit_multi_variant_tuples<E: quiver_core::effects::Effect>(
     compiled_values: &[CompiledValue],
     stack_size: usize,
     tuple_name: Option<String>,
+    inherit_name: bool,
 ) -> Result<usize, Error> {
     let mut end_jumps = Vec::new();
     let mut variant_type_ids = Vec::new();
@@ -518,9 +536,10 @@ fn emit_multi_variant_tuples<E: quiver_core::effects::Effect>(
             // All checks passed - construct this variant
             emit_field_extraction_code(compiler, &field_sources, compiled_values, stack_size)?;
 
+            let name = variant_tuple_name(compiler.program, variant, &tuple_name, inherit_name);
             let tuple_id = compiler
                 .program
-                .register_tuple(tuple_name.clone(), variant.fields.clone());
+                .register_tuple(name, variant.fields.clone());
             compiler
                 .codegen
                 .add_instruction(Instruction::Tuple(tuple_id));
@@ -536,9 +555,10 @@ fn emit_multi_variant_tuples<E: quiver_core::effects::Effect>(
             // Last variant - no need to check, just construct it
             emit_field_extraction_code(compiler, &field_sources, compiled_values, stack_size)?;
 
+            let name = variant_tuple_name(compiler.program, variant, &tuple_name, inherit_name);
             let tuple_id = compiler
                 .program
-                .register_tuple(tuple_name.clone(), variant.fields.clone());
+                .register_tuple(name, variant.fields.clone());
             compiler
                 .codegen
                 .add_instruction(Instruction::Tuple(tuple_id));
